@@ -575,10 +575,21 @@ def r_pure(E):
     return res
 
 
+_FRAME_HELPERS = [None]      # name -> module-level FunctionDef of the function being scanned (set by r_fill)
+
+
 def _is_frame(e, frames):
-    """syntactic 'this expression is an hourly frame' (X.value of an explainable, shift/add/mul/copy of a frame)"""
+    """syntactic 'this expression is an hourly frame' (X.value of an explainable, shift/add/mul/copy of a frame, or the
+    result of a same-module helper that returns one)"""
     if isinstance(e, ast.Name):
         return e.id in frames
+    if isinstance(e, ast.Call) and isinstance(e.func, ast.Name) and _FRAME_HELPERS[0] is not None:
+        h = _FRAME_HELPERS[0](e.func.id)
+        if h is not None:
+            from ..astutil import helper_view
+            v = helper_view(h, e)
+            return any(isinstance(r, ast.Return) and r.value is not None and _is_frame(r.value, frames)
+                       for r in ast.walk(v))
     if isinstance(e, ast.Attribute) and e.attr == "value" and isinstance(e.value, ast.Name):
         return True
     if isinstance(e, ast.Call) and isinstance(e.func, ast.Attribute) and e.func.attr in (
@@ -602,15 +613,20 @@ def r_fill(E):
     res = RuleResult("R-FILL", "every element-wise + or * between two hourly frames is the method form with fill_value "
                                "(missing hours count as zero); a bare df1 + df2 / df1 * df2 yields NaN outside the "
                                "common index")
+    from ..astutil import nodes_through_helpers
     for suffix, q in FILL_SCOPE:
         rel, fn = pm.find_function(suffix, q)
+        # same-module helper functions are read at their call sites, in the caller's terms
+        finder = pm.function_finder(rel) if "." not in q else None
+        _FRAME_HELPERS[0] = finder
+        nodes = nodes_through_helpers(fn, find_function=finder, depth=2) if finder else list(ast.walk(fn))
         frames = set()
         for _ in range(3):
-            for n in ast.walk(fn):
+            for n in nodes:
                 if isinstance(n, ast.Assign) and len(n.targets) == 1 and isinstance(n.targets[0], ast.Name) \
                         and _is_frame(n.value, frames):
                     frames.add(n.targets[0].id)
-        for n in ast.walk(fn):
+        for n in nodes:
             if isinstance(n, ast.Call) and isinstance(n.func, ast.Attribute) and n.func.attr in ("add", "mul") \
                     and _is_frame(n.func.value, frames):
                 res.instances += 1
@@ -632,7 +648,8 @@ def r_fill(E):
                         "R-FILL", f"{q} :: {norm(n)[:100]}",
                         f"{q}: bare `{norm(n)[:60]}` between two hourly frames aligns on the index and yields NaN "
                         f"where only one side has a value", rel, n.lineno, q))
-    res.floor = 4
+    _FRAME_HELPERS[0] = None
+    res.floor = 3     # at least one per scanned function (4 on the pinned tree)
     return res
 
 
@@ -666,7 +683,7 @@ def r_shift(E):
                         rel, n.lineno, q))
                 elif len(res.samples) < 4:
                     res.samples.append({"file": rel, "function": q, "site": norm(n)[:80], "verdict": "index shift"})
-    res.floor = 6
+    res.floor = 3     # one per function that shifts: occurrences averaging, storage dumps, return_shifted_… (6 sites today)
     return res
 
 
